@@ -61,8 +61,16 @@ pub fn level(prop: &str) -> &'static str {
 }
 
 pub fn rule(prop: &str) -> String {
-    let common = "One run = one seeded scenario: a generated fact set (DAG shape, id assignment, names, annotations drawn swarm-style), 2-6 replicas built by real library code over independently drawn construction paths, delivery orders (as generated / reversed / id asc / id desc / topological / anti-topological / keyed random), duplicate deliveries and hash-iteration schedules, each compared with the reference model. distinct = distinct schedule fingerprint (paths, order modes per phase, hash mode, duplication on/off, via-file, fact-set size bucket, sub-ontology request shape, dropped facts); non-trivial = the run built >= 2 ontologies and at least one replica used a non-canonical order, duplication or a non-identity hash schedule.";
-    format!("{prop}: {common}")
+    let family = "One run = one seeded scenario: a generated fact set (DAG shape incl. chains, trees, diamond ladders, layered and wide graphs; id assignment decorrelated from graph order; names; annotations with colliding numeric ids across kinds; 1 in 300 runs uses the example ontology shipped with the repository), 2-6 replicas built by real library code over independently drawn construction paths (Builder, independent v1/v2/v3 encoders -> from_bytes/from_binary, as_bytes round trip, JAX text files, transitive text files), delivery orders per phase (as generated / reversed / id asc / id desc / topological / anti-topological / keyed random), duplicate deliveries and hash-iteration schedules (keyed PRF, identity, reversed, all-collide), each compared with the reference model; optionally a sub_ontology request on replica 0. distinct = distinct schedule fingerprint (sorted multiset of (path, order mode per phase, hash mode, duplication on/off, via-file), fact-set size bucket, sub-ontology request shape, dropped facts); non-trivial = the run built >= 2 ontologies and at least one replica used a non-canonical order, duplication or a non-identity hash schedule.";
+    let own = match prop {
+        "C07" => "One run = one source replica (any path; 1 in 12 a build_minimal / sub_ontology result that still has both roots) -> as_bytes under the source's hash schedule -> writer program W1 (create, write chunks, fsync, close) or W2 (temp file, fsync, rename) on the simulated disk, no crash or a crash right after the acknowledged sync -> image materialised as a real file -> from_binary, and from_bytes on the same bytes; 1 in 3 runs serialises and loads a second time. distinct = (source path label, hash mode, over-long names yes/no, non-default categories yes/no, writer, crash yes/no, fact-set size, which annotation sections are empty); non-trivial = source and at least one reload were built.",
+        "C08" => "One run = one mode: `layout` (one fact set encoded by the independent v1, v2 and v3 encoders, twice each under drawn record orders and inner id orders, decoded by the library and compared with the model of what that version can carry; 1 in 160 with more than 65 535 term records), `truncate` (one file from an independent encoder or from as_bytes: EVERY truncation offset 0..len-1, 26 appended suffixes, all 254 unsupported version bytes), `disk` (writer W1 without/with fsync or W3 overwriting a previous, different valid file in place; a crash after EVERY syscall index; durable image computed block-wise from seeded bits; PREFIX/EXTENDED images must be rejected, FULL/OLD must decode to their model, TORN images are classified only), `realfile` (a binary file shipped with the repository against the independent decoder). distinct = (mode, path label, fact-set size, writer, chunk, block, fsync, previous file yes/no); every run is non-trivial.",
+        "C14" => "One run = one source replica (any defaults-carrying path or Builder minimal) and one sub_ontology request (root biased to HP:1 / HP:118 / modifier roots / terms with many descendants; 1-5 leaves with duplicates, leaf == root, ancestors of other leaves, 1 in 8 a leaf outside root's subtree), executed under 2-3 schedules (hash schedule, leaf order and multiplicity); 1 in 3 accepted results is the source of a second-level request. distinct = (source path label, number of leaves, bad leaf yes/no, fact-set size, root class, hash mode); non-trivial = source and at least one result were built.",
+        "C15" => "One run = one Builder history: new_term calls for the delivered term facts (0-2 term facts are dropped in transit), add_parent for every link of the ORIGINAL fact set plus calls on ids that never existed (also ids >= 10^7), add_* / annotate_* for every annotation of the original fact set plus annotations on absent terms (for records that exist nowhere else, and for existing ones), in drawn orders with duplicates; failing calls biased to come first or right after a valid call on the same parent/record. distinct = (number of ops, rejected calls, rejected annotate calls, hash mode, defaults, dropped facts); non-trivial = at least one call was rejected.",
+        "C18" => "One run = replica A from F (path BinV3 / Text / Builder / BinLib) and replica B from F after 0-4 injected edits (rename incl. changes only beyond byte 255, obsolete flip, replacement set/cleared, parent added/removed, term added/removed with dependants, record renamed, annotation added/removed incl. extreme ids of records with > 30 terms, record added/removed), B over the same or another path. distinct = (sequence of edit kinds, the two paths, fact-set size); non-trivial = at least one edit.",
+        _ => family,
+    };
+    format!("{prop}: {own}")
 }
 
 pub fn assumptions(_prop: &str) -> Vec<String> {
